@@ -175,4 +175,126 @@ theorem C09_unguarded_counterexample :
   have := C09_unguarded_wrong 4294967295 [] [0xcc] (by decide) (lt_pow67_of_le_u32 (by omega))
   rwa [e] at this
 
+/-! ## storageAppend on the layered storage: frame and rollback -/
+
+theorem Store.get_set_self (s : Store) (k v : Bytes) : (s.set k v).get k = v := by
+  simp [Store.set, Store.get]
+
+theorem Store.get_set_ne (s : Store) (k k' v : Bytes) (h : k ≠ k') : (s.set k v).get k' = s.get k' := by
+  simp [Store.set, Store.get, h]
+
+/-- **frame**: an append touches the current view at its key only — every other key of the view,
+    and every other layer (parent transactions, the trie), is exactly what it was; the new value
+    is Substrate's -/
+theorem C09_append_frame (top : Store) (rest : List Store) (k item : Bytes) :
+    ∃ top', stepS (top :: rest) (.app k item) = some (top' :: rest) ∧
+      top'.get k = substrateAppend (top.get k) item ∧ ∀ k', k ≠ k' → top'.get k' = top.get k' := by
+  refine ⟨top.set k (storageAppend (top.get k) item), rfl, ?_, ?_⟩
+  · rw [Store.get_set_self, C09_append_eq]
+  · intro k' h; exact Store.get_set_ne _ _ _ _ h
+
+/-- operations that never close a transaction they did not open (`d` = how many they may close) -/
+def safeOps : Nat → List Op → Bool
+  | _, [] => true
+  | d, .tbegin :: ops => safeOps (d + 1) ops
+  | d, .rollback :: ops => decide (1 ≤ d) && safeOps (d - 1) ops
+  | d, .commit :: ops => decide (1 ≤ d) && safeOps (d - 1) ops
+  | d, _ :: ops => safeOps d ops
+
+/-- transactions still open afterwards -/
+def depthAfter : Nat → List Op → Nat
+  | d, [] => d
+  | d, .tbegin :: ops => depthAfter (d + 1) ops
+  | d, .rollback :: ops => depthAfter (d - 1) ops
+  | d, .commit :: ops => depthAfter (d - 1) ops
+  | d, _ :: ops => depthAfter d ops
+
+/-- **frame for runs**: operations that stay above the layers `rest` leave them untouched -/
+theorem C09_tx_frame (ops : List Op) : ∀ (pre rest : List Store), pre ≠ [] →
+    safeOps (pre.length - 1) ops = true →
+    ∃ pre', pre' ≠ [] ∧ pre'.length - 1 = depthAfter (pre.length - 1) ops ∧
+      runS ops (pre ++ rest) = some (pre' ++ rest) := by
+  induction ops with
+  | nil => intro pre rest hne _; exact ⟨pre, hne, rfl, rfl⟩
+  | cons op ops ih =>
+    intro pre rest hne hs
+    cases pre with
+    | nil => exact absurd rfl hne
+    | cons top tl =>
+      cases op with
+      | app k item =>
+        simp only [safeOps] at hs
+        obtain ⟨pre', h1, h2, h3⟩ := ih (top.set k (storageAppend (top.get k) item) :: tl) rest (by simp) hs
+        exact ⟨pre', h1, by simpa [depthAfter] using h2, by simpa [runS, stepS] using h3⟩
+      | put k v =>
+        simp only [safeOps] at hs
+        obtain ⟨pre', h1, h2, h3⟩ := ih (top.set k v :: tl) rest (by simp) hs
+        exact ⟨pre', h1, by simpa [depthAfter] using h2, by simpa [runS, stepS] using h3⟩
+      | get k =>
+        simp only [safeOps] at hs
+        obtain ⟨pre', h1, h2, h3⟩ := ih (top :: tl) rest (by simp) hs
+        exact ⟨pre', h1, by simpa [depthAfter] using h2, by simpa [runS, stepS] using h3⟩
+      | cap k =>
+        simp only [safeOps] at hs
+        obtain ⟨pre', h1, h2, h3⟩ := ih (top :: tl) rest (by simp) hs
+        exact ⟨pre', h1, by simpa [depthAfter] using h2, by simpa [runS, stepS] using h3⟩
+      | snap =>
+        simp only [safeOps] at hs
+        obtain ⟨pre', h1, h2, h3⟩ := ih (top :: tl) rest (by simp) hs
+        exact ⟨pre', h1, by simpa [depthAfter] using h2, by simpa [runS, stepS] using h3⟩
+      | tbegin =>
+        simp only [safeOps, List.length_cons, Nat.add_sub_cancel] at hs
+        obtain ⟨pre', h1, h2, h3⟩ := ih (top :: top :: tl) rest (by simp) (by simpa using hs)
+        refine ⟨pre', h1, ?_, by simpa [runS, stepS] using h3⟩
+        simpa [depthAfter] using h2
+      | rollback =>
+        simp only [safeOps, List.length_cons, Nat.add_sub_cancel, Bool.and_eq_true, decide_eq_true_eq] at hs
+        cases tl with
+        | nil => simp at hs
+        | cons t2 tl2 =>
+          obtain ⟨pre', h1, h2, h3⟩ := ih (t2 :: tl2) rest (by simp) (by simpa using hs.2)
+          refine ⟨pre', h1, ?_, by simpa [runS, stepS] using h3⟩
+          simpa [depthAfter] using h2
+      | commit =>
+        simp only [safeOps, List.length_cons, Nat.add_sub_cancel, Bool.and_eq_true, decide_eq_true_eq] at hs
+        cases tl with
+        | nil => simp at hs
+        | cons t2 tl2 =>
+          obtain ⟨pre', h1, h2, h3⟩ := ih (top :: tl2) rest (by simp) (by simpa using hs.2)
+          refine ⟨pre', h1, ?_, by simpa [runS, stepS] using h3⟩
+          simpa [depthAfter] using h2
+
+theorem runS_append (a b : List Op) (st : List Store) :
+    runS (a ++ b) st = (runS a st).bind (runS b) := by
+  induction a generalizing st with
+  | nil => simp [runS]
+  | cons op a ih =>
+    simp only [List.cons_append, runS]
+    cases stepS st op with
+    | none => simp
+    | some st' => simpa using ih st'
+
+/-- **rollback restores**: whatever happens inside a transaction — appends, puts, nested
+    transactions that are themselves closed — `RollbackTransaction` gives back exactly the storage
+    (every layer, every value) that `StartTransaction` saw -/
+theorem C09_rollback_restores (ops : List Op) (top : Store) (rest : List Store)
+    (hs : safeOps 0 ops = true) (hd : depthAfter 0 ops = 0) :
+    runS (.tbegin :: ops ++ [.rollback]) (top :: rest) = some (top :: rest) := by
+  obtain ⟨pre', hne, hlen, hrun⟩ := C09_tx_frame ops [top] (top :: rest) (by simp) (by simpa using hs)
+  simp only [List.length_singleton, Nat.sub_self, hd] at hlen
+  have h1 : pre'.length = 1 := by
+    have : 0 < pre'.length := List.length_pos_iff.2 hne
+    omega
+  obtain ⟨x, rfl⟩ := List.length_eq_one_iff.mp h1
+  show runS (.tbegin :: (ops ++ [.rollback])) (top :: rest) = _
+  simp only [runS, stepS]
+  rw [runS_append]
+  have : runS ops (top :: top :: rest) = some ([x] ++ (top :: rest)) := hrun
+  rw [this]
+  rfl
+
+/-- non-vacuity: the scenario of the nested, rolled-back append -/
+example : runS [.app [0x61] [1], .tbegin, .app [0x61] [2], .rollback, .app [0x61] [3]] [[]]
+    = some [[([0x61], [8, 1, 3]), ([0x61], [4, 1])]] := by decide
+
 end Gossamer.C09
